@@ -178,6 +178,18 @@ func runC06(r *Run) {
 		}
 		cases = append(cases, c)
 	}
+	// unknown versions written as ONE content octet (what the reader takes for a version field), with and without crlExtensions:
+	// every such list is rejected as a whole (an arithmetic slip on the octet - 0xff + 1 - must not turn it into a known one)
+	for i, vb := range []byte{0x02, 0x03, 0x7f, 0x80, 0xfe, 0xff} {
+		for _, exts := range []bool{true, false} {
+			s := genC06Spec(rand.New(rand.NewSource(int64(900+i))), 3, 0)
+			s.Version, s.VersionRaw = 1, []byte{vb}
+			if !exts {
+				s.Exts = nil
+			}
+			cases = append([]c06Case{{Spec: s, Neg: "version", PEM: i % 3, Desc: fmt.Sprintf("version octet %#02x exts=%v", vb, exts)}}, cases...)
+		}
+	}
 	// fixed corner cases first (corpus)
 	for _, n := range []int{0, 1, 3} {
 		for _, v := range []int{0, 1} {
